@@ -46,7 +46,14 @@ def run(tier):
         for i in range(0, len(traces), B):
             batch = traces[i:i + B]
             slim = [{k: t[k] for k in ("id", "il", "segs", "lay", "steps")} for t in batch]
-            accepted, where, tres = trace.validate("Trace_Footprint", "Trace_Footprint.cfg", slim, "C19-trace")
+            refined = set()
+            accepted, where, tres = trace.validate("Trace_Footprint", "Trace_Footprint.cfg", slim, "C19-trace",
+                                                   extra_marks={"REFINED": refined})
+            rf = chk.cov.setdefault("refinement", {"what": "chunk selection (chunk_offset, num_chunks per segment) logged "
+                                                   "by the NPTDMS_VERIF hook vs the algorithm model's fetch set "
+                                                   "(diagnostic only)", "traces": 0, "traces_refined_stepwise": 0})
+            rf["traces"] += len(batch)
+            rf["traces_refined_stepwise"] += len(refined)
             chk.cov["tlc_runs"].append({"config": "Trace_Footprint batch %d" % (i // B), "traces": len(batch),
                                         "accepted": len(accepted), "distinct_states": tres.distinct,
                                         "wall_s": round(tres.wall, 2)})
